@@ -114,6 +114,9 @@ class Environment:
     def sync(self, force=False):
         pass
 
+    def max_key_size(self):
+        return MAX_KEY
+
     def stat(self):
         return {
             "psize": 4096,
